@@ -32,7 +32,8 @@ import tr_curve  # noqa: E402
 
 REPO = os.environ.get("EG_REPO", "/repo")
 LEAN = os.path.join(V, "lean")
-MODS = [("C05", "GeneratedCircle"), ("C05", "GeneratedEllipse"), ("C18", "GeneratedCurves"), ("C06", "GeneratedStyled")]
+MODS = [("C05", "GeneratedCircle"), ("C05", "GeneratedEllipse"), ("C18", "GeneratedCurves"), ("C06", "GeneratedStyled"),
+        ("C06", "GeneratedDraw")]
 SCRATCH = os.environ.get("CURVE_DEMO_SCRATCH", f"/tmp/vw/curvegen-repo-{os.getpid()}")
 CM = "src/primitives/circle/mod.rs"
 CP = "src/primitives/circle/points.rs"
@@ -43,17 +44,11 @@ GE = "src/geometry/mod.rs"
 SS = "src/primitives/common/styled_scanline.rs"
 CS = "src/primitives/circle/styled.rs"
 ES = "src/primitives/ellipse/styled.rs"
+PS = "src/primitives/primitive_style.rs"
 # files whose seeded changes this tie is responsible for (tr_rect's files have their own demo)
-SEED_FILES = [CM, CP, EM, EP, SC, GE, SS, CS, ES]
+SEED_FILES = [CM, CP, EM, EP, SC, GE, SS, CS, ES, PS]
 # seeded changes that touch one of these files only in code the part does not translate (styled drawing is tied elsewhere)
-_GENERIC = ("edits the generic `draw_styled<D>` (impl<C: PixelColor> StyledDrawable .. for Circle / Ellipse), which this part does "
-            "not translate (generic over colour and target; tied by the styled.* / faults.* streams): the generated text "
-            "changes in line numbers only")
-_DRAWSTROKE = ("edits the generic `StyledScanline::draw_stroke<T: DrawTarget>` (error propagation, C04's topic; listed in "
-               "CurveSrc.untranslated)")
 SEEDS_OUT_OF_SCOPE = {
-    "C01-3": _GENERIC, "C01-r4-1": _GENERIC, "C06-r4-2": _GENERIC,
-    "C04-1": _DRAWSTROKE, "C04-r3-2": _DRAWSTROKE,
     "C19-r3-1": "edits Scanline::bresenham_intersection (the triangle / polyline scanline code of C19), which is listed in "
                 "CurveSrc.untranslated; only Scanline::{new, new_empty, is_empty, next} are translated here",
 }
@@ -164,6 +159,45 @@ CASES = [
     ("StyledScanline::new: the shadowing local renamed", "harmless", SS,
      "        let fill_range = fill_range.unwrap_or_else(|| stroke_range.end..stroke_range.end);\n\n        Self {\n            y,\n            stroke_range,\n            fill_range,\n        }",
      "        let fr = fill_range.unwrap_or_else(|| stroke_range.end..stroke_range.end);\n\n        Self {\n            y,\n            stroke_range,\n            fill_range: fr,\n        }", []),
+    ("Scanline::draw: width one short", "mutation", SC,
+     "let width = (self.x.end - self.x.start) as u32;", "let width = (self.x.end - self.x.start - 1) as u32;",
+     ["Scanline_draw_src_eq_model"]),
+    ("Scanline::draw: the empty-scanline shortcut removed", "mutation", SC,
+     "        if self.is_empty() {\n            return Ok(());\n        }\n\n        let width", "        let width",
+     ["Scanline_draw_src_eq_model"]),
+    ("StyledScanline::draw_stroke: the right part is drawn first", "mutation", SS,
+     "        self.stroke_left().draw(target, stroke_color)?;\n        self.stroke_right().draw(target, stroke_color)\n",
+     "        self.stroke_right().draw(target, stroke_color)?;\n        self.stroke_left().draw(target, stroke_color)\n",
+     ["StyledScanline_draw_stroke_src_eq_model"]),
+    ("StyledScanline::draw_stroke_and_fill: the fill part is skipped", "mutation", SS,
+     "        self.fill().draw(target, fill_color)?;\n", "", ["StyledScanline_draw_stroke_and_fill_src_eq_model"]),
+    ("PrimitiveStyle::outside_stroke_width: Center rounds up", "mutation", PS,
+     "StrokeAlignment::Center => self.stroke_width / 2,", "StrokeAlignment::Center => (self.stroke_width + 1) / 2,",
+     ["outside_stroke_width_src_eq_model"]),
+    ("PrimitiveStyle::effective_stroke_color: `>= 0`", "mutation", PS,
+     "self.stroke_color.filter(|_| self.stroke_width > 0)", "self.stroke_color.filter(|_| self.stroke_width >= 0)",
+     ["effective_stroke_color_src_eq_model"]),
+    ("PrimitiveStyle::fill_area: shrinks by the OUTSIDE width", "mutation", PS,
+     "-self.inside_stroke_width().saturating_as::<i32>()", "-self.outside_stroke_width().saturating_as::<i32>()",
+     ["fill_area_Circle_src_eq_model"]),
+    ("Circle::draw_styled: the fill-only arm draws the shape instead of the fill area (seed C01-3's idea)", "mutation", CS,
+     "for scanline in Scanlines::new(&style.fill_area(self)) {", "for scanline in Scanlines::new(self) {",
+     ["Circle_draw_styled_src_eq_model"]),
+    ("Ellipse::draw_styled: stroke-only arm uses `draw_stroke_and_fill`", "mutation", ES,
+     "                    scanline.draw_stroke(target, stroke_color)?;", "                    scanline.draw_stroke_and_fill(target, stroke_color, stroke_color)?;",
+     ["Ellipse_draw_styled_src_eq_model"]),
+    ("Circle::styled_bounding_box: grows by the inside width", "mutation", CS,
+     "        let offset = style.outside_stroke_width().saturating_as();\n\n        self.bounding_box().offset(offset)",
+     "        let offset = style.inside_stroke_width().saturating_as();\n\n        self.bounding_box().offset(offset)",
+     ["Circle_styled_bounding_box_src_eq_model"]),
+    ("Scanline::draw: the early return written as if / else", "harmless", SC,
+     "        if self.is_empty() {\n            return Ok(());\n        }\n\n        let width = (self.x.end - self.x.start) as u32;\n\n        target.fill_solid(\n            &Rectangle::new(Point::new(self.x.start, self.y), Size::new(width, 1)),\n            color,\n        )",
+     "        if self.is_empty() {\n            Ok(())\n        } else {\n            let w = (self.x.end - self.x.start) as u32;\n            target.fill_solid(&Rectangle::new(Point::new(self.x.start, self.y), Size::new(w, 1)), color)\n        }", []),
+    ("Circle::draw_styled: the two areas bound to locals before the loop", "harmless", CS,
+     "            (Some(stroke_color), None) => {\n                for scanline in\n                    StyledScanlines::new(&style.stroke_area(self), &style.fill_area(self))\n                {",
+     "            (Some(stroke_color), None) => {\n                let sa = style.stroke_area(self);\n                let fa = style.fill_area(self);\n                for scanline in StyledScanlines::new(&sa, &fa) {", []),
+    ("Circle::draw_styled: `draw_iter` on the target (a target call this part does not know)", "unknown", CS,
+     "                    scanline.draw(target, fill_color)?;", "                    target.draw_iter(scanline.map(|p| Pixel(p, fill_color)))?;", []),
     # outside the subset
     ("Circle::contains: a `for` loop", "unknown", CM,
      "        let delta = self.center_2x() - point * 2;\n", "        for _k in 0..1 {}\n        let delta = self.center_2x() - point * 2;\n", []),
@@ -281,7 +315,9 @@ def main():
             os.makedirs(os.path.join(gen_dir, "src", "EG", "Generated"))
             lib = os.path.join(gen_dir, "lib")
             os.makedirs(os.path.join(lib, "EG", "Generated"))
-            os.makedirs(os.path.join(lib, "EG", "Props", "C05"))
+            pdirs = sorted({p for p, _ in MODS})
+            for pd in pdirs:
+                os.makedirs(os.path.join(lib, "EG", "Props", pd))
             for e in os.listdir(os.path.join(real, "EG")):
                 if e not in ("Generated", "Props"):
                     os.symlink(os.path.join(real, "EG", e), os.path.join(lib, "EG", e))
@@ -289,11 +325,13 @@ def main():
                 if not e.startswith("CurveSrc."):
                     os.symlink(os.path.join(real, "EG", "Generated", e), os.path.join(lib, "EG", "Generated", e))
             for e in os.listdir(os.path.join(real, "EG", "Props")):
-                if e != "C05":
+                if e not in pdirs:
                     os.symlink(os.path.join(real, "EG", "Props", e), os.path.join(lib, "EG", "Props", e))
-            for e in os.listdir(os.path.join(real, "EG", "Props", "C05")):
-                if not (e.startswith("GeneratedCircle.") or e.startswith("GeneratedEllipse.")):
-                    os.symlink(os.path.join(real, "EG", "Props", "C05", e), os.path.join(lib, "EG", "Props", "C05", e))
+            for pd in pdirs:
+                mine = [m + "." for p2, m in MODS if p2 == pd]
+                for e in os.listdir(os.path.join(real, "EG", "Props", pd)):
+                    if not any(e.startswith(x) for x in mine):
+                        os.symlink(os.path.join(real, "EG", "Props", pd, e), os.path.join(lib, "EG", "Props", pd, e))
             gsrc = os.path.join(gen_dir, "src", "EG", "Generated", "CurveSrc.lean")
             open(gsrc, "w").write(files["CurveSrc.lean"])
             env = dict(os.environ, LEAN_PATH=lean_path)
@@ -306,10 +344,10 @@ def main():
             else:
                 env2 = dict(os.environ, LEAN_PATH=lib + ":" + lean_path)
                 for (p, m) in MODS:
-                    o = os.path.join(lib, "EG", "Props", p, m + ".olean") if p == "C05" else None
+                    o = os.path.join(lib, "EG", "Props", p, m + ".olean")
                     bb = broken_in(props[(p, m)], ths[(p, m)], env2, o)
                     broken |= bb
-                    if bb and o is not None:
+                    if bb:
                         if os.path.lexists(o):
                             os.remove(o)
                         os.symlink(os.path.join(real, "EG", "Props", p, m + ".olean"), o)
